@@ -236,6 +236,13 @@ func cronExec(h sim.History) []string {
 				if err != nil {
 					resp = "err"
 				}
+			case "editpanic":
+				// the client's callback panics (and the client recovers): nothing was edited, the store must be left
+				// exactly as a no-op edit leaves it — in particular with its timer re-armed
+				func() {
+					defer func() { recover() }()
+					w.store.EditTask(func(entries []*cron.Entry) []*cron.Entry { panic("callback panics") })
+				}()
 			case "start":
 				w.store.StartTimer(ctx)
 			case "stop":
@@ -424,8 +431,10 @@ func genCronHistory(r *rng.R, length int, badMeta bool) sim.History {
 				}
 				g.stored = append(ns, add...)
 			}
-		case w < 70:
+		case w < 69:
 			h.Ops = append(h.Ops, "start")
+		case w < 70:
+			h.Ops = append(h.Ops, "editpanic")
 		case w < 76:
 			h.Ops = append(h.Ops, "stop")
 		case w < 92:
